@@ -155,6 +155,22 @@ class Path:
         memo[key] = (r == z3.unsat, list(self.pc), cond)   # keeps the ASTs alive so that ids stay unique
         return r == z3.unsat
 
+    def unique_int(self, term):
+        """The integer v with pc |= term == v, or None (abstract model as a guess, entails() as the proof)."""
+        term = z3.simplify(term)
+        if z3.is_int_value(term):
+            return term.as_long()
+        s, facts = self._abstract_solver(ENTAIL_RLIMIT)
+        a, fs = zu.arith_abstract(term)
+        for f in facts + fs:
+            s.add(f)
+        if s.check() != z3.sat:
+            return None
+        v = s.model().eval(a, model_completion=True)
+        if not z3.is_int_value(v):
+            return None
+        return v.as_long() if self.entails(term == v) else None
+
     def model_says(self, cond):
         """If a model of the current pc is cached, evaluate cond in it -> True/False/None."""
         m = getattr(self, "model", None)
